@@ -19,6 +19,10 @@ one kind of rewrite at a time, edits that cannot change behaviour:
                       bound to temporaries first
 * ``extract-helper``  a run of top-level statements is moved into a new helper
                       function that is called in its place
+* ``ternary``         ``if c: x = a else: x = b`` -> ``x = a if c else b``
+* ``comp-to-loop``    a statement-level list comprehension becomes an explicit
+                      loop with ``append``
+* ``augassign``       ``x += y`` -> ``x = x + y``
 * ``guard-clause``    a trailing ``if c: BODY`` of a loop body / function becomes
                       ``if not c: continue`` (``return``) followed by BODY
 * ``unguard``         the inverse for ``if c: continue`` guard clauses
@@ -489,6 +493,82 @@ def t_extract_helper(f: ast.FunctionDef, tree: ast.Module) -> bool:
     return False
 
 
+def t_ternary(f: ast.FunctionDef, tree: ast.Module) -> bool:
+    """``if c: x = a else: x = b`` -> ``x = a if c else b``."""
+    changed = False
+    for blk in list(_blocks(f)):
+        for i, st in enumerate(blk):
+            if isinstance(st, ast.If) and len(st.body) == 1 and len(
+                    st.orelse) == 1 and all(
+                    isinstance(x, ast.Assign) and len(x.targets) == 1
+                    and isinstance(x.targets[0], ast.Name)
+                    for x in (st.body[0], st.orelse[0])) \
+                    and st.body[0].targets[0].id == \
+                    st.orelse[0].targets[0].id:      # type: ignore[attr-defined]
+                blk[i] = ast.Assign(
+                    targets=[st.body[0].targets[0]],  # type: ignore[attr-defined]
+                    value=ast.IfExp(test=st.test,
+                                    body=st.body[0].value,   # type: ignore[attr-defined]
+                                    orelse=st.orelse[0].value))  # type: ignore[attr-defined]
+                changed = True
+    return changed
+
+
+def t_comp_to_loop(f: ast.FunctionDef, tree: ast.Module) -> bool:
+    """``xs = [e for t in it if c]`` (statement level, one generator) ->
+    ``xs = []; for t in it: if c: xs.append(e)``."""
+    changed = False
+    for blk in list(_blocks(f)):
+        i = 0
+        while i < len(blk):
+            st = blk[i]
+            tgt = None
+            if isinstance(st, ast.Assign) and len(st.targets) == 1 and \
+                    isinstance(st.targets[0], ast.Name):
+                tgt = st.targets[0].id
+            elif isinstance(st, ast.AnnAssign) and isinstance(
+                    st.target, ast.Name) and st.value is not None:
+                tgt = st.target.id
+            v = getattr(st, "value", None)
+            if tgt and isinstance(v, ast.ListComp) and len(
+                    v.generators) == 1 and not v.generators[0].is_async \
+                    and not any(isinstance(n, ast.Name) and n.id == tgt
+                                for n in ast.walk(v)):
+                g = v.generators[0]
+                app: ast.stmt = ast.Expr(value=ast.Call(
+                    func=ast.Attribute(value=ast.Name(id=tgt, ctx=ast.Load()),
+                                       attr="append", ctx=ast.Load()),
+                    args=[v.elt], keywords=[]))
+                for cond in reversed(g.ifs):
+                    app = ast.If(test=cond, body=[app], orelse=[])
+                loop = ast.For(target=g.target, iter=g.iter, body=[app],
+                               orelse=[], type_comment=None)
+                init = ast.Assign(targets=[ast.Name(id=tgt, ctx=ast.Store())],
+                                  value=ast.List(elts=[], ctx=ast.Load()))
+                blk[i:i + 1] = [init, loop]
+                i += 1
+                changed = True
+            i += 1
+    return changed
+
+
+def t_augassign(f: ast.FunctionDef, tree: ast.Module) -> bool:
+    """``x += y`` -> ``x = x + y`` (names only)."""
+    changed = False
+    for blk in list(_blocks(f)):
+        for i, st in enumerate(blk):
+            if isinstance(st, ast.AugAssign) and isinstance(
+                    st.target, ast.Name) and isinstance(
+                    st.op, (ast.Add, ast.Sub, ast.Mult)):
+                blk[i] = ast.Assign(
+                    targets=[ast.Name(id=st.target.id, ctx=ast.Store())],
+                    value=ast.BinOp(left=ast.Name(id=st.target.id,
+                                                  ctx=ast.Load()),
+                                    op=st.op, right=st.value))
+                changed = True
+    return changed
+
+
 TRANSFORMS: dict[str, Callable[[ast.FunctionDef, ast.Module], bool]] = {
     "rename-locals": t_rename_locals,
     "flip-if": t_flip_if,
@@ -499,6 +579,9 @@ TRANSFORMS: dict[str, Callable[[ast.FunctionDef, ast.Module], bool]] = {
     "hoist-return": t_hoist_return,
     "hoist-args": t_hoist_args,
     "extract-helper": t_extract_helper,
+    "ternary": t_ternary,
+    "comp-to-loop": t_comp_to_loop,
+    "augassign": t_augassign,
     "guard-clause": t_guard_clause,
     "unguard": t_unguard,
 }
